@@ -29,13 +29,15 @@ REAL = ['py4hw.simulation.Simulator.clk/_clk_cycle/stop', 'py4hw.base.Wire.prepa
 STUB = ['stimulus (wire.put between clk calls)', 'cancelling listener']
 ASSUMPTIONS = ['inputs change only between clk calls, identically in both systems',
                'reference models in dsim/catalog.py']
-PROBES = ['swap_pair', 'ring', 'memory', 'split_clk', 'stop_cancel', 'multi_driver']
+PROBES = ['fsm_block', 'swap_pair', 'ring', 'memory', 'split_clk', 'stop_cancel', 'multi_driver']
 
 
 def gen(rs, tier, index):
     rng = rs.get('design')
     comb = [KINDS[k] for k in ('And2', 'Or2', 'Xor2', 'Not', 'Mux2', 'Add', 'Sub', 'Equal', 'Buf', 'Range', 'ConcatenateMSBF', 'Constant')]
     seqk = [k for k in kinds_with(seq=True) if k.name not in ('ClockDivider',)] + [KINDS['ClockDivider']]
+    # FSM blocks: behavioural library blocks (no catalogue model: the twin is their oracle) and the message sequencer
+    seqk += [k for k in kinds_with(tag='transpiled')] + [KINDS['MsgSequencer']]
     shape = rng.random()
     if shape < 0.2:
         d = swap_ring_design(rng)
@@ -141,6 +143,8 @@ def run(scn, log, st):
         st.probe('swap_pair' if d['ring'] == 2 else 'ring')
     if 'SynchronousMemory' in kinds:
         st.probe('memory')
+    if any('transpiled' in KINDS[k].tags or k == 'MsgSequencer' for k in kinds):
+        st.probe('fsm_block')
     if d.get('group_driver'):
         st.probe('multi_driver')
     b = netlist.Built(d).build(scn['order'])
